@@ -49,14 +49,27 @@ pub struct Trip {
     pub transport: Transport,
     /// overrides (cols, rows): a few very large arrays (size-dependent fast paths)
     #[serde(default)]
-    pub big: Option<(u16, u16)>,
+    pub big: Option<(u32, u32)>,
 }
 
 fn decode<T: DeserializeOwned>(text: &str, tr: Transport) -> Result<Result<TooDee<T>, String>, String> {
+    // the byte transports also see input that is not UTF-8
+    let mut bytes = std::borrow::Cow::Borrowed(text.as_bytes());
+    if text.contains(BAD_BYTE) && matches!(tr, Transport::Slice | Transport::Reader) {
+        let mut b = Vec::new();
+        for ch in text.chars() {
+            if ch == BAD_BYTE {
+                b.push(0xff);
+            } else {
+                b.extend_from_slice(ch.encode_utf8(&mut [0u8; 4]).as_bytes());
+            }
+        }
+        bytes = std::borrow::Cow::Owned(b);
+    }
     catch(|| match tr {
         Transport::Str => serde_json::from_str::<TooDee<T>>(text).map_err(|e| e.to_string()),
-        Transport::Slice => serde_json::from_slice::<TooDee<T>>(text.as_bytes()).map_err(|e| e.to_string()),
-        Transport::Reader => serde_json::from_reader::<_, TooDee<T>>(std::io::Cursor::new(text.as_bytes())).map_err(|e| e.to_string()),
+        Transport::Slice => serde_json::from_slice::<TooDee<T>>(&bytes).map_err(|e| e.to_string()),
+        Transport::Reader => serde_json::from_reader::<_, TooDee<T>>(std::io::Cursor::new(&bytes[..])).map_err(|e| e.to_string()),
         Transport::Value => match serde_json::from_str::<Value>(text) {
             Ok(v) => serde_json::from_value::<TooDee<T>>(v).map_err(|e| e.to_string()),
             Err(e) => Err(format!("(not JSON) {}", e)),
@@ -77,18 +90,36 @@ fn encode<S: Serialize>(x: &S, tr: Transport) -> Result<String, String> {
     })
 }
 
+/// the start of a long document (messages must stay readable)
+fn short(text: &str) -> String {
+    if text.len() <= 600 {
+        text.to_string()
+    } else {
+        let mut e = 600;
+        while !text.is_char_boundary(e) {
+            e -= 1;
+        }
+        format!("{}... ({} bytes)", &text[..e], text.len())
+    }
+}
+
 fn roundtrip<T: Serialize + DeserializeOwned + PartialEq + Debug + Clone>(t: &TooDee<T>, tr: Transport) -> Verdict {
-    let text = match encode(t, tr) {
+    let full = match encode(t, tr) {
         Ok(s) => s,
         Err(m) => fail!("serialize-panicked", "serialising a {}x{} array panicked: {}", t.num_cols(), t.num_rows(), m),
     };
-    let back = match decode::<T>(&text, tr) {
-        Err(m) => fail!("deserialize-panicked", "deserialising {} via {:?} panicked: {}", text, tr, m),
-        Ok(Err(e)) => fail!(format!("roundtrip-rejected/{:?}", tr), "a {}x{} array serialised to {} but deserialising it via {:?} fails: {}", t.num_cols(), t.num_rows(), text, tr, e),
+    let text_short = short(&full);
+    let text = &full;
+    let back = match decode::<T>(text, tr) {
+        Err(m) => fail!("deserialize-panicked", "deserialising {} via {:?} panicked: {}", text_short, tr, m),
+        Ok(Err(e)) => fail!(format!("roundtrip-rejected/{:?}", tr), "a {}x{} array serialised to {} but deserialising it via {:?} fails: {}", t.num_cols(), t.num_rows(), text_short, tr, e),
         Ok(Ok(b)) => b,
     };
-    ensure!(back.size() == t.size(), format!("roundtrip-size/{:?}", tr), "a {}x{} array came back via {:?} with size {:?} (document {})", t.num_cols(), t.num_rows(), tr, back.size(), text);
-    ensure!(back.data() == t.data(), format!("roundtrip-cells/{:?}", tr), "a {}x{} array came back via {:?} with different cells: {:?} vs {:?} (document {})", t.num_cols(), t.num_rows(), tr, back.data(), t.data(), text);
+    ensure!(back.size() == t.size(), format!("roundtrip-size/{:?}", tr), "a {}x{} array came back via {:?} with size {:?} (document {})", t.num_cols(), t.num_rows(), tr, back.size(), text_short);
+    if back.data() != t.data() {
+        let i = (0..t.data().len().min(back.data().len())).find(|&i| back.data()[i] != t.data()[i]);
+        fail!(format!("roundtrip-cells/{:?}", tr), "a {}x{} array came back via {:?} with different cells: first difference at {:?} ({} vs {} cells; document {})", t.num_cols(), t.num_rows(), tr, i.map(|i| (i, &back.data()[i], &t.data()[i])), back.data().len(), t.data().len(), text_short);
+    }
     ensure!(&back == t, format!("roundtrip-eq/{:?}", tr), "round-tripped array != original although size and cells agree");
     Ok(())
 }
@@ -122,11 +153,11 @@ pub fn exec_trip(k: &Trip, ctx: &mut Ctx) -> Verdict {
             Err(m) => fail!("view/serialize-panicked", "serialising a view panicked: {}", m),
         };
         let back = match decode::<u32>(&text, k.transport) {
-            Err(m) => fail!("view/deserialize-panicked", "deserialising {} panicked: {}", text, m),
-            Ok(Err(e)) => fail!(format!("view/roundtrip-rejected/{:?}", k.transport), "a {}x{} window of a {}x{} parent serialised to {} but deserialising it fails: {}", lay.c, lay.r, lay.pc, lay.pr, text, e),
+            Err(m) => fail!("view/deserialize-panicked", "deserialising {} panicked: {}", short(&text), m),
+            Ok(Err(e)) => fail!(format!("view/roundtrip-rejected/{:?}", k.transport), "a {}x{} window of a {}x{} parent serialised to {} but deserialising it fails: {}", lay.c, lay.r, lay.pc, lay.pr, short(&text), e),
             Ok(Ok(b)) => b,
         };
-        ensure!(back.size() == owned_copy.size() && back.data() == owned_copy.data() && back == owned_copy, format!("view/roundtrip-differs/{:?}", k.transport), "a {}x{} window at {:?} of a {}x{} parent ({}) round-trips to size {:?} cells {:?}, but an owned copy of the view has size {:?} cells {:?} (document {})", lay.c, lay.r, lay.o, lay.pc, lay.pr, if mutable { "view_mut" } else { "view" }, back.size(), back.data(), owned_copy.size(), owned_copy.data(), text);
+        ensure!(back.size() == owned_copy.size() && back.data() == owned_copy.data() && back == owned_copy, format!("view/roundtrip-differs/{:?}", k.transport), "a {}x{} window at {:?} of a {}x{} parent ({}) round-trips to size {:?} cells {:?}, but an owned copy of the view has size {:?} cells {:?} (document {})", lay.c, lay.r, lay.o, lay.pc, lay.pr, if mutable { "view_mut" } else { "view" }, back.size(), &back.data()[..back.data().len().min(64)], owned_copy.size(), &owned_copy.data()[..owned_copy.data().len().min(64)], short(&text));
         if lay.pc > lay.c && lay.c > 0 {
             ctx.class("strided-view");
             ctx.nt();
@@ -197,7 +228,19 @@ impl Prop for C18 {
             }
         }
         // a few large arrays and views around power-of-two cell counts (size-dependent fast paths)
-        for (i, (c, r)) in [(600u16, 450u16), (520, 505), (257, 256), (1030, 64)].into_iter().enumerate() {
+        // every transport with more than 2^18 u32 cells / 2^17 i64 cells / 2^16 strings, and arrays of
+        // `()` with a dimension beyond 65535
+        for tr in [Transport::Str, Transport::Slice, Transport::Reader, Transport::Value] {
+            emit(Trip { elem: DocElem::U32, cols: 1, rows: 1, ints: vec![1, 2, 3, 70000], strs: vec![], view: None, transport: tr, big: Some((600, 600)) });
+            emit(Trip { elem: DocElem::I64, cols: 1, rows: 1, ints: vec![-1, 2, i64::MAX], strs: vec![], view: None, transport: tr, big: Some((300, 450)) });
+            emit(Trip { elem: DocElem::Str, cols: 1, rows: 1, ints: vec![], strs: vec!["a".into(), "".into(), "\\u".into()], view: None, transport: tr, big: Some((260, 255)) });
+            emit(Trip { elem: DocElem::OptU32, cols: 1, rows: 1, ints: vec![0, 1, 2, 3, 4], strs: vec![], view: None, transport: tr, big: Some((1, 140_000)) });
+            emit(Trip { elem: DocElem::Unit, cols: 1, rows: 1, ints: vec![], strs: vec![], view: None, transport: tr, big: Some((70_000, 1)) });
+            emit(Trip { elem: DocElem::Unit, cols: 1, rows: 1, ints: vec![], strs: vec![], view: None, transport: tr, big: Some((2, 65_536)) });
+            emit(Trip { elem: DocElem::Unit, cols: 1, rows: 1, ints: vec![], strs: vec![], view: None, transport: tr, big: Some((65_537, 3)) });
+            emit(Trip { elem: DocElem::U32, cols: 1, rows: 1, ints: vec![6, 5], strs: vec![], view: Some(([1, 1, 0, 1], tr == Transport::Value)), transport: tr, big: Some((70_001, 4)) });
+        }
+        for (i, (c, r)) in [(600u32, 450u32), (520, 505), (257, 256), (1030, 64)].into_iter().enumerate() {
             let tr = [Transport::Str, Transport::Slice, Transport::Reader, Transport::Value][i % 4];
             emit(Trip { elem: DocElem::U32, cols: 1, rows: 1, ints: vec![1, 2, 3], strs: vec![], view: None, transport: tr, big: Some((c, r)) });
             emit(Trip { elem: DocElem::U32, cols: 1, rows: 1, ints: vec![4, 5, 6, 7], strs: vec![], view: Some(([0, 0, 0, 0], false)), transport: [Transport::Reader, Transport::Str, Transport::Slice, Transport::Value][i % 4], big: Some((c, r)) });
@@ -290,6 +333,19 @@ pub struct Doc {
     pub transport: Transport,
 }
 
+/// a key starting with this character is rendered verbatim (it brings its own quotes)
+pub const RAW_KEY: char = '\u{1}';
+/// in the byte transports (from_slice / from_reader) this character becomes the single byte 0xFF
+pub const BAD_BYTE: char = '\u{f8ff}';
+
+/// the key a document field denotes (raw keys: what their JSON text decodes to, if anything)
+fn key_name(k: &str) -> String {
+    match k.strip_prefix(RAW_KEY) {
+        Some(raw) => serde_json::from_str::<String>(raw).unwrap_or_else(|_| k.to_string()),
+        None => k.to_string(),
+    }
+}
+
 fn render(v: &Val, ws: u8, out: &mut String) {
     let sp = match ws % 3 {
         0 => "",
@@ -322,7 +378,11 @@ fn render(v: &Val, ws: u8, out: &mut String) {
                     out.push(',');
                 }
                 out.push_str(sp);
-                out.push_str(&serde_json::to_string(k).unwrap());
+                match k.strip_prefix(RAW_KEY) {
+                    // verbatim key text (with its quotes): escapes that a serialiser would never produce
+                    Some(raw) => out.push_str(raw),
+                    None => out.push_str(&serde_json::to_string(k).unwrap()),
+                }
                 out.push_str(sp);
                 out.push(':');
                 out.push_str(sp);
@@ -411,7 +471,7 @@ pub fn exec_doc(k: &Doc, ctx: &mut Ctx) -> Verdict {
             Ok(Value::Object(m)) => Some(m.into_iter().collect()),
             _ => None,
         },
-        (Some(f), _) => Some(f.iter().filter_map(|(k, v)| to_value(v).map(|x| (k.clone(), x))).collect()),
+        (Some(f), _) => Some(f.iter().filter_map(|(k, v)| to_value(v).map(|x| (key_name(k), x))).collect()),
     };
     let fr = fields.as_deref();
     match k.elem {
@@ -508,6 +568,26 @@ fn dim_pool() -> BoxedStrategy<Val> {
     .boxed()
 }
 
+/// keys that are not field names: near misses, long keys with a multi-byte character at every
+/// offset around 32 bytes, escapes no serialiser produces (lone surrogates), a byte that is not UTF-8
+fn unknown_key() -> BoxedStrategy<String> {
+    prop_oneof![
+        4 => proptest::sample::select(vec!["stride", "num_col", "Data", "", "num_rows ", "NUM_COLS", "num_cols\u{0}", "data\u{301}", "numcols", "num_cols2", "\u{feff}data"]).prop_map(|s| s.to_string()),
+        4 => (0usize..70, proptest::sample::select(vec!['a', 'é', '€', '😀', '\u{7f}', '\u{80}']), 0usize..40, proptest::sample::select(vec!['z', 'ß', '\u{10ffff}'])).prop_map(|(a, ch, b, fill)| {
+            let mut k = "k".repeat(a);
+            k.push(ch);
+            for _ in 0..b {
+                k.push(fill);
+            }
+            k
+        }),
+        2 => nasty_string().prop_filter("a field name", |s| !["num_cols", "num_rows", "data"].contains(&s.as_str())),
+        3 => proptest::sample::select(vec!["\"\\ud800\"", "\"\\udc00x\"", "\"ab\\ud83d\"", "\"\\ud800\\u0041\"", "\"\\ud83d\\ude00\"", "\"x\\u0000y\"", "\"\\udfff\\ud800\"", "\"kkkkkkkkkkkkkkkkkkkkkkkkkkkkkkk\\ud800\"", "\"extr\\u0061\""]).prop_map(|s| format!("{}{}", RAW_KEY, s)),
+        1 => (0usize..40).prop_map(|a| format!("{}{}", "q".repeat(a), BAD_BYTE)),
+    ]
+    .boxed()
+}
+
 fn doc_strategy() -> BoxedStrategy<Doc> {
     let elem = prop_oneof![3 => Just(DocElem::U32), 2 => Just(DocElem::Str), 1 => Just(DocElem::OptU32), 1 => Just(DocElem::Unit)];
     (elem, 0u64..6, 0u64..6, transport(), 0u8..3)
@@ -532,9 +612,9 @@ fn doc_strategy() -> BoxedStrategy<Doc> {
                 3 => Just(12u8),           // both dimensions from the pool
                 3 => Just(13u8),           // sequence form [num_cols, num_rows, data] of the current values
             ];
-            (Just((elem, c, r, tr, ws)), data, prop::collection::vec(mutation, 1..3), dim_pool(), dim_pool(), wrong_val(), any::<[u16; 4]>(), elem_val(elem))
+            (Just((elem, c, r, tr, ws)), data, prop::collection::vec(mutation, 1..3), dim_pool(), dim_pool(), wrong_val(), any::<[u16; 4]>(), elem_val(elem), unknown_key())
         })
-        .prop_map(|((elem, c, r, tr, ws), data, muts, p1, p2, wrong, rnd, extra)| {
+        .prop_map(|((elem, c, r, tr, ws), data, muts, p1, p2, wrong, rnd, extra, ukey)| {
             let mut fields: Vec<(String, Val)> = vec![("num_cols".into(), Val::U(c)), ("num_rows".into(), Val::U(r)), ("data".into(), Val::Arr(data))];
             let mut top: Option<Val> = None;
             for m in muts {
@@ -593,8 +673,7 @@ fn doc_strategy() -> BoxedStrategy<Doc> {
                     }
                     8 => {
                         let at = rnd[3] as usize % (fields.len() + 1);
-                        let key = ["stride", "num_col", "Data", "", "num_rows "][rnd[0] as usize % 5].to_string();
-                        fields.insert(at, (key, wrong.clone()));
+                        fields.insert(at, (ukey.clone(), if rnd[1] % 2 == 0 { wrong.clone() } else { extra.clone() }));
                     }
                     9 => {
                         let z = rnd[0] % 2 == 0;
@@ -663,6 +742,31 @@ impl Prop for C19 {
             (Val::I(-1), Val::U(2), Val::Arr(vec![])),
             (Val::U(1), Val::U(1), Val::Arr(vec![Val::S("x".into())])),
         ];
+        // unknown keys: a multi-byte character at every byte offset 24..=40, escapes no serialiser
+        // produces, a byte that is not UTF-8; before and after the real fields
+        {
+            let mut keys: Vec<String> = Vec::new();
+            for a in 24..=40usize {
+                for ch in ['é', '€', '😀'] {
+                    keys.push(format!("{}{}tail", "k".repeat(a), ch));
+                }
+            }
+            for raw in ["\"\\ud800\"", "\"\\udc00\"", "\"ab\\ud83d\"", "\"\\ud83d\\ude00\"", "\"kkkkkkkkkkkkkkkkkkkkkkkkkkkkkkk\\ud800\"", "\"extr\\u0061\"", "\"\\ud800\\u0041\""] {
+                keys.push(format!("{}{}", RAW_KEY, raw));
+            }
+            keys.push(format!("qq{}", BAD_BYTE));
+            keys.push(format!("{}{}", "q".repeat(31), BAD_BYTE));
+            for tr in [Transport::Str, Transport::Slice, Transport::Reader, Transport::Value] {
+                for key in &keys {
+                    let base: Vec<(String, Val)> = vec![("num_cols".into(), Val::U(2)), ("num_rows".into(), Val::U(1)), ("data".into(), Val::Arr(vec![Val::U(5), Val::U(6)]))];
+                    for at in [0usize, 3] {
+                        let mut f = base.clone();
+                        f.insert(at, (key.clone(), Val::U(1)));
+                        emit(Doc { elem: DocElem::U32, fields: Some(f), top: Val::Null, ws: 0, transport: tr });
+                    }
+                }
+            }
+        }
         // zero-sized elements, and exact factorisations of 2^64 + k with k data cells
         for tr in [Transport::Str, Transport::Slice, Transport::Reader, Transport::Value] {
             for (c, r, n) in [(2u64, 2u64, 4usize), (0, 0, 0), (0, 3, 0), (1 << 63, 2, 0), (3, 1, 2)] {
